@@ -4,13 +4,13 @@ import (
 	"bytes"
 	"encoding/csv"
 	"encoding/hex"
-	"os/exec"
-	"path/filepath"
-	"regexp"
 	"encoding/json"
 	"fmt"
 	"net/http"
 	"os"
+	"os/exec"
+	"path/filepath"
+	"regexp"
 	"strings"
 	"testing"
 	"testing/synctest"
@@ -34,21 +34,23 @@ import (
 type c20Plan struct {
 	N        int   `json:"n"`
 	T        int   `json:"t"`
-	Tape     []int `json:"tape"`      // delivery order of the original ceremony
-	Batches  int   `json:"batches"`   // signing batches appended to the original log
-	Junk     int   `json:"junk"`      // junk messages interleaved into the original log
-	Adapt014 bool  `json:"adapt_014"` // strip self-confirmations and PubPolyBz (a v0.1.4 log), then GetAdaptedReDKG
-	Proposer int   `json:"proposer"`  // which new node posts the reinit message
-	Recorded bool  `json:"recorded"`  // use the recorded client/test_data/0_1_4_log.csv instead of a generated ceremony
-	CLI      bool  `json:"cli"`       // build the reinit file with the compiled dc4bc_dkg_reinitializer from a CSV dump and check the compiled CLI's hash
-	Prior    bool  `json:"prior"`     // the original machines completed another round before the one that is re-initialised
+	Tape     []int `json:"tape"`               // delivery order of the original ceremony
+	Batches  int   `json:"batches"`            // signing batches appended to the original log
+	Junk     int   `json:"junk"`               // junk messages interleaved into the original log
+	Adapt014 bool  `json:"adapt_014"`          // strip self-confirmations and PubPolyBz (a v0.1.4 log), then GetAdaptedReDKG
+	Proposer int   `json:"proposer"`           // which new node posts the reinit message
+	Recorded bool  `json:"recorded"`           // use the recorded client/test_data/0_1_4_log.csv instead of a generated ceremony
+	CLI      bool  `json:"cli"`                // build the reinit file with the compiled dc4bc_dkg_reinitializer from a CSV dump and check the compiled CLI's hash
+	Prior    bool  `json:"prior"`              // the original machines completed another round before the one that is re-initialised
+	DupInit  bool  `json:"dup_init,omitempty"` // the board re-delivers the round's opening proposal once more after the ceremony has begun (live nodes refuse the copy)
 }
 
 func c20Gen(rt *rapid.T) c20Plan {
 	nt := rapid.SampledFrom([][2]int{{2, 2}, {3, 2}, {3, 3}, {4, 2}, {4, 3}}).Draw(rt, "nt")
 	return c20Plan{N: nt[0], T: nt[1], Tape: rapid.SliceOfN(rapid.IntRange(0, 1000), 0, 60).Draw(rt, "tape"),
 		Batches: rapid.IntRange(0, 2).Draw(rt, "batches"), Junk: rapid.IntRange(0, 3).Draw(rt, "junk"),
-		Adapt014: rapid.Bool().Draw(rt, "adapt"), Proposer: rapid.IntRange(0, nt[0]-1).Draw(rt, "proposer"), Prior: rapid.IntRange(0, 2).Draw(rt, "prior") == 0, CLI: rapid.IntRange(0, 3).Draw(rt, "cli") == 0}
+		Adapt014: rapid.Bool().Draw(rt, "adapt"), Proposer: rapid.IntRange(0, nt[0]-1).Draw(rt, "proposer"), Prior: rapid.IntRange(0, 2).Draw(rt, "prior") == 0, CLI: rapid.IntRange(0, 3).Draw(rt, "cli") == 0,
+		DupInit: rapid.IntRange(0, 3).Draw(rt, "dupInit") == 0}
 }
 
 type c20Orig struct {
@@ -110,7 +112,17 @@ func c20Original(p c20Plan, root string) (o c20Orig) {
 	}
 	o.Round = round
 	junk := p.Junk
+	dupPending := p.DupInit
+	redeliver := func() {
+		if !dupPending || w.Board.Len() < priorLen+2 {
+			return
+		}
+		dupPending = false
+		m := w.Board.From(priorLen)[0]
+		w.Board.Inject(storage.Message{DkgRoundID: m.DkgRoundID, Event: m.Event, Data: m.Data, Signature: m.Signature, SenderAddr: m.SenderAddr, RecipientAddr: m.RecipientAddr})
+	}
 	for _, c := range p.Tape {
+		redeliver()
 		type act struct {
 			kind string
 			i, k int
@@ -154,6 +166,17 @@ func c20Original(p c20Plan, root string) (o c20Orig) {
 				w.PostSigned(c%p.N, "another-round-0000000000000000000000000000", "event_sig_proposal_confirm_by_participant", []byte(`{"ParticipantId":0,"CreatedAt":"2000-01-01T00:00:00Z"}`), "")
 			}
 		}
+	}
+	if dupPending {
+		// nothing but the proposal is on the board yet: let the first operator confirm, then re-deliver
+		w.PollAll()
+		if ops, _ := w.Nodes[0].Operations(); len(ops) > 0 {
+			if _, err := w.Answer(0, ops[0]); err != nil {
+				o.Err = err
+				return
+			}
+		}
+		redeliver()
 	}
 	if err := w.Quiesce(100); err != nil {
 		o.Err = err
@@ -202,11 +225,12 @@ func c20Original(p c20Plan, root string) (o c20Orig) {
 }
 
 type c20Obs struct {
-	States   []string
-	Hashes   [][]byte
-	FileHash []byte
-	Err      error
-	Viol     *viol
+	ForgedTaken bool // a node's replayed round holds the junk generator's forged commitment (D15 at work)
+	States      []string
+	Hashes      [][]byte
+	FileHash    []byte
+	Err         error
+	Viol        *viol
 }
 
 func c20Reinit(p c20Plan, o c20Orig, cfg world.Config, log []storage.Message) (obs c20Obs) {
@@ -289,8 +313,19 @@ func c20Reinit(p c20Plan, o c20Orig, cfg world.Config, log []storage.Message) (o
 			return
 		}
 		obs.Hashes = append(obs.Hashes, reinitOps[0].ExtraData)
-		if _, err := w.Answer(i, reinitOps[0]); err != nil {
-			obs.Viol = violf("reinit-operation-failed", "participant %d: %v", i, err)
+		if res, err := w.Answer(i, reinitOps[0]); err != nil {
+			why := ""
+			if res != nil && len(res.ResultMsgs) > 0 {
+				// the machine's own account of the failure travels in the error request it attached
+				var er struct {
+					Error json.RawMessage
+				}
+				if json.Unmarshal(res.ResultMsgs[0].Data, &er) == nil {
+					why = "; the airgapped machine reported: " + clip(string(er.Error), 300)
+				}
+			}
+			obs.ForgedTaken = c20ForgedContributionTaken(w, round)
+			obs.Viol = violf("reinit-operation-failed", "participant %d: %v%s", i, err, why)
 			return
 		}
 	}
@@ -453,7 +488,7 @@ func c20Run(t *testing.T, st *vstat.Stats, p c20Plan) *viol {
 	if obs.Err != nil {
 		return violf("harness", "%v", obs.Err)
 	}
-	if obs.Viol != nil && !p.Recorded && c20LogHasEffectiveForgery(o) {
+	if obs.Viol != nil && !p.Recorded && (obs.ForgedTaken || c20LogHasEffectiveForgery(o)) {
 		// the log contains a forged contribution that the original nodes refused (bad signature) but that sits where the
 		// genuine one was awaited: the re-initialisation replays the dump with verification switched off and takes it
 		obs.Viol.Key = "reinit-accepts-forged-message-from-log"
@@ -463,6 +498,9 @@ func c20Run(t *testing.T, st *vstat.Stats, p c20Plan) *viol {
 		return obs.Viol
 	}
 	st.Class(fmt.Sprintf("adapt014=%v", p.Adapt014 || p.Recorded))
+	if p.DupInit && !p.Recorded {
+		st.Class("log-with-redelivered-opening-proposal")
+	}
 	if p.CLI && !p.Recorded && os.Getenv("VERIF_BUILD") != "" {
 		st.Class("via-compiled-CLIs")
 	}
@@ -625,6 +663,23 @@ func c20ViaCLI(binDir, root string, log []storage.Message, newKeys map[string][]
 
 // c20LogHasEffectiveForgery: the original log holds a badly signed commit "from" a participant at a position where
 // that participant's commit was still awaited (after the last confirmation, before its genuine commit).
+// c20ForgedContributionTaken: some node's round, rebuilt by the reinit replay, records the forged commitment that the
+// junk generator put on the original board under a bad signature (base64 "AAAA").
+func c20ForgedContributionTaken(w *world.World, round string) bool {
+	for i := range w.Nodes {
+		d, err := w.Dump(i, round)
+		if err != nil || d == nil || d.Payload == nil || d.Payload.DKGProposalPayload == nil {
+			continue
+		}
+		for _, q := range d.Payload.DKGProposalPayload.Quorum {
+			if bytes.Equal(q.DkgCommit, []byte{0, 0, 0}) {
+				return true
+			}
+		}
+	}
+	return false
+}
+
 func c20LogHasEffectiveForgery(o c20Orig) bool {
 	confirms := 0
 	genuine := map[string]bool{}
